@@ -1,15 +1,17 @@
 import Cbor.Lemmas.CountsOps
 import Cbor.Lemmas.LoadSafe
 import Cbor.Lemmas.CopyFrame
+import Cbor.Props.C11
 /-!
 # C06 — an allocation failure is reported cleanly and atomically
 
 Over the heap-level model: whenever a builder or a container operation reports failure (NULL / false), the
 heap — every item, every reference count, every container's contents and capacity — is exactly what it was
 before the call; only the count of allocator requests has advanced.  This holds for *every* oracle, i.e. for
-every choice of which allocator requests are refused.  (`cbor_copy`, `cbor_load`, `cbor_serialize_alloc`
-allocate repeatedly and clean up after a late refusal; for them the same statement is decided by the
-fault-schedule correspondence and the state-comparison oracle, see DESIGN.md.)
+every choice of which allocator requests are refused.  `cbor_copy` allocates repeatedly and cleans up after a late refusal:
+`C06_copy_atomic` proves, for every tree, every acyclic heap and every oracle, that a failed copy has released everything it
+allocated (the heap reads exactly as before, the same number of blocks is live) and never faults.  (`cbor_load` and
+`cbor_serialize_alloc`: see `C06_load_any_schedule` and DESIGN.md.)
 -/
 namespace Props.C06
 open Heap
@@ -208,5 +210,24 @@ theorem C06_copy_any_schedule (ω : Oracle) (h : H) (own : Ref → Nat) (hc : Co
       omega
     | some cx => exact get_lt hgx
   exact ⟨(copy_source_intact ω h r (get_lt hg) hnd).1, (copy_counts_all ω h.copyFuel).1 h r own hc hf⟩
+
+/-- **`cbor_copy` is atomic under every refusal schedule.**  Whatever requests the allocator refuses while a tree is being
+copied — the k-th alone, the k-th and all later, any subset — a copy that reports failure (NULL) has released every item
+and buffer it had allocated up to that point: every cell of the heap reads exactly as before the call (contents and reference
+counts of the argument and of everything else), the number of live items and of live allocator blocks is what it was, and
+no clean-up path trips the fault flag (no NULL dereference, no use after release, no double release). -/
+theorem C06_copy_atomic (ω : Oracle) (h : H) (t : Spec.Item) (x : Ref) (hd : Den t h x) (hac : Props.C11.Acyclic h)
+    (hfail : (h.copy ω x).1 = none) :
+    (h.copy ω x).2.fault = h.fault ∧ (∀ r : Nat, (h.copy ω x).2.get r = h.get r) ∧
+    (h.copy ω x).2.liveCells = h.liveCells ∧ (h.copy ω x).2.liveBlocks = h.liveBlocks := by
+  obtain ⟨h1, h2, h3⟩ := Props.C11.C11_copy ω h t x hd hac
+  rw [hfail] at h3
+  have hlen : h.cells.length ≤ (h.copy ω x).2.cells.length := by
+    have := (copy_spec_top ω t h.copyFuel h x hd (need_le_copyFuel h hac t x hd)).2.1
+    exact this
+  have hcells := cells_eq_append_nones hlen h2 (fun r hr => by rw [h3 r, get_none_of_ge h r hr])
+  refine ⟨h1, h3, ?_, ?_⟩
+  · unfold H.liveCells; rw [hcells, liveCells_append_nones]
+  · rw [liveBlocks_eq, liveBlocks_eq, hcells, liveBlocks_append_nones]
 
 end Props.C06
